@@ -361,3 +361,25 @@ Definition interp_many (v w : list Q) (k : kind) : tgt :=
    center = low + 0.5 * binsize *)
 Definition center_factor : float := 0.5%float.
 Definition whist_empty : Q := 0%Q.
+
+(* ------------------------------------------------------------------ which keyword wins *)
+(* Binner.dohist (util.py:169-174, 179-186): nperbin, else binsize, else nbin, else ValueError.
+   histogram() (util.py:572-587): binsize defaults to 1.0 and is dropped when nbin is given, then
+   dohist — so there: nperbin, else nbin, else binsize. *)
+Inductive choice := CNum (k : Z) | CMode (m : mode) | CNone.
+
+Definition resolve (via_histogram : bool) (bs : option float) (nb k : option Z) : choice :=
+  match k with
+  | Some k => CNum k
+  | None =>
+      if via_histogram then
+        match nb with
+        | Some n => CMode (ByNbin n)
+        | None => CMode (ByBinsize (match bs with Some b => b | None => 1%float end))
+        end
+      else
+        match bs with
+        | Some b => CMode (ByBinsize b)
+        | None => match nb with Some n => CMode (ByNbin n) | None => CNone end
+        end
+  end.
